@@ -16,6 +16,8 @@
   the hypothesis `Reader.Lawful`; the e2e correspondence samples that hypothesis, it does not prove it.
 -/
 import SA.Proofs.Framing
+import SA.Proofs.ReadAhead
+import SA.Gen.C17ReadAhead
 import SA.Gen.PkgVars
 import SA.Gen.LoopVars
 namespace SA.Framing
@@ -434,3 +436,21 @@ theorem C01_per_item_handlers :
 end SA.PkgState
 
 #print axioms SA.PkgState.C01_per_item_handlers
+
+namespace SA.ReadAhead
+/-- **selection_preserves_the_stream**: the server's channel selection reads through a buffered reader that takes whole
+    chunks from the logical stream; for every chunking and every token length the bytes the selection consumed followed
+    by the bytes the handler then copies to the target are the stream itself — no byte lost, duplicated or reordered at
+    the seam between selection and payload. -/
+theorem C01_selection_preserves_the_stream (k : Nat) (cs : List (List Nat)) :
+    (take k (BR.ofChunks cs)).1 ++ viaWrapper k cs = cs.flatten := by
+  simpa [viaWrapper, BR.ofChunks, BR.remaining] using take_remaining k (BR.ofChunks cs)
+
+/-- the code hands the handler that same buffered reader (regenerated) -/
+theorem C01_handler_reads_through_wrapper :
+    Gen.c17MuxHandleArgs = ["newClientFirstConn(multiplexChannel)"] ∧ Gen.c17MuxNegotiateCalls = 0 ∧
+    Gen.c17WrapperReadsFrom = "c.reader.Read(p)" := by decide
+end SA.ReadAhead
+
+#print axioms SA.ReadAhead.C01_selection_preserves_the_stream
+#print axioms SA.ReadAhead.C01_handler_reads_through_wrapper
